@@ -8,12 +8,19 @@ import time
 
 VERIF = os.path.dirname(os.path.dirname(os.path.dirname(os.path.abspath(__file__))))
 REPO = os.environ.get("VERIF_REPO", "/repo")
-BUILD = os.path.join(VERIF, "build")
+_ALT = None
+if os.path.realpath(REPO) != "/repo":
+    import hashlib as _h
+    _ALT = "alt-" + _h.sha1(os.path.realpath(REPO).encode()).hexdigest()[:10]
+# a check run against another tree (VERIF_REPO=/tmp/wt-x, mutation testing) gets its own build,
+# evidence and out directories so that it can never disturb the checks of /repo itself
+BUILD = os.path.join(VERIF, "build") if _ALT is None else os.path.join(VERIF, "build", _ALT)
+CCACHE_DIR = os.path.join(VERIF, "build", "ccache")
 SPEC = os.path.join(VERIF, "spec")
 HARNESS = os.path.join(VERIF, "harness")
 ENGINE = os.path.join(VERIF, "engine")
-EVIDENCE = os.path.join(VERIF, "evidence")
-OUT = os.path.join(VERIF, "out")
+EVIDENCE = os.path.join(VERIF, "evidence") if _ALT is None else os.path.join(BUILD, "evidence")
+OUT = os.path.join(VERIF, "out") if _ALT is None else os.path.join(BUILD, "out")
 NCPU = os.cpu_count() or 4
 
 
